@@ -94,11 +94,12 @@ fn arb_case(u: &mut Unstructured) -> arbitrary::Result<WireCase> {
         let set_max = if u.arbitrary()? { Some(u64s(u)?) } else { None };
         deltas.push(NodeDeltaSpec { id: id_spec(u)?, gc: u64s(u)?, from: u64s(u)?, kvs, set_max });
     }
-    let blocking = match u.int_in_range(0..=5)? {
+    let blocking = match u.int_in_range(0..=6)? {
         0..=2 => Blocking::Canonical,
         3 => Blocking::Raw(u.int_in_range(1..=70_000)?),
         4 => Blocking::Compressed(u.int_in_range(1..=70_000)?),
-        _ => Blocking::Mixed(u.int_in_range(1..=70_000)?),
+        5 => Blocking::Mixed(u.int_in_range(1..=70_000)?),
+        _ => Blocking::CompressedStream(u.int_in_range(1..=70_000)?),
     };
     let twin_ids = u.ratio(1, 5)?;
     Ok(WireCase { kind, cluster_id, digest, bulk_digest, deltas, blocking, twin_ids })
